@@ -35,8 +35,12 @@ RULES = {
     "R7": "fixed point of function value information below IR version 10 (shared rule S9): the parser of the composite names the serializer builds "
     "({domain}::{function}/{value}) splits at one occurrence of each separator (partition / maxsplit), never with an unbounded "
     "split followed by a length test - value names are free text and routinely contain '/'",
+    "R8": "one precedence for duplicated value_info names: every table the deserializer builds from value_info entries (main "
+    "graph, function, IR<10 function entries stored in the main graph) resolves a repeated name the same way - all last-wins "
+    "(dict comprehension, plain store) or all first-wins (setdefault, `if k not in`): an entry that belongs to two tables and is "
+    "read with opposite precedence makes serialize(deserialize(P)) swap the two entries on every round trip",
 }
-FLOORS = {"R1": 45, "R2": 6, "R3": 5, "R4": 5, "R5": 2, "R6": 3, "R7": 2}
+FLOORS = {"R1": 45, "R2": 6, "R3": 5, "R4": 5, "R5": 2, "R6": 3, "R7": 2, "R8": 3}
 EXPLANATION = (
     "Effect summaries (file-system primitives through the resolved call graph) for the deserialization entry set and "
     "the cheap tensor accessors; a sub-term analysis of every recursive call edge of the deserializer; dominator "
@@ -418,7 +422,44 @@ def rule_r6(ctx):
     ctx.require(n >= 3, f"only {n} fields found in the emission predicate")
 
 
+def rule_r8(ctx):
+    m = ctx.repo.modules[SERDE]
+    sites = []  # (function, node, 'last' | 'first')
+    for f in m.all_funcs:
+        if isinstance(f.node, ast.Lambda):
+            continue
+        for x in own_nodes(f.node):
+            if isinstance(x, ast.DictComp) and any("value_info" in norm(g.iter) for g in x.generators):
+                sites.append((f, x, "last"))
+            if isinstance(x, ast.For) and "value_info" in norm(x.iter) and not isinstance(getattr(x, "_parent", None), ast.DictComp):
+                tv = {n.id for n in ast.walk(x.target) if isinstance(n, ast.Name)}
+                for st in (y for b in x.body for y in ast.walk(b)):
+                    # table[key] = <loop variable>  /  table.setdefault(key, <loop variable>)
+                    if isinstance(st, ast.Assign) and isinstance(st.value, ast.Name) and st.value.id in tv and any(isinstance(t, ast.Subscript) for t in st.targets):
+                        guarded = False
+                        p_ = getattr(st, "_parent", None)
+                        while p_ is not None and p_ is not x:
+                            if isinstance(p_, ast.If) and any(isinstance(o, ast.NotIn) for c in ast.walk(p_.test) if isinstance(c, ast.Compare) for o in c.ops):
+                                guarded = True
+                            p_ = getattr(p_, "_parent", None)
+                        sites.append((f, st, "first" if guarded else "last"))
+                    if isinstance(st, ast.Call) and isinstance(st.func, ast.Attribute) and st.func.attr == "setdefault" and len(st.args) == 2 \
+                            and isinstance(st.args[1], ast.Name) and st.args[1].id in tv:
+                        sites.append((f, st, "first"))
+    ctx.require(len(sites) >= 3, f"only {len(sites)} tables built from value_info entries found in the deserializer")
+    kinds = [k for _, _, k in sites]
+    major = max(set(kinds), key=kinds.count)
+    for f, node, k in sites:
+        ctx.check("R8", f"{f.local}: `{short(norm(node))}` resolves a repeated value_info name like the other tables ({major} wins)", k == major, f, node,
+                  f"`{short(norm(node))}` keeps the {k} entry of a repeated name while the other value_info tables of the deserializer keep the {major} one: "
+                  "a name that both tables list twice is then bound differently in the two places, and the serialized model swaps the entries on "
+                  "every round trip (no fixed point)",
+                  how="tables keyed by value_info names: dict comprehension / plain store (last wins) vs setdefault / `not in` guard (first wins)",
+                  construct=f"value_info table with {k}-wins precedence in {f.local}")
+
+
 def run(ctx):
+    rule_r8(ctx)
     from ..shared import rule_s9
 
     rule_s9(ctx, "R7", "the entry is written but ignored on reading, so it disappears on the next serialization: serialize(deserialize(P)) != P")
